@@ -4,6 +4,7 @@
 
 mod obs;
 mod util;
+mod vec;
 
 fn arg_after(args: &[String], flag: &str) -> Option<String> {
     args.iter().position(|a| a == flag).and_then(|i| args.get(i + 1)).cloned()
@@ -24,6 +25,7 @@ fn main() {
             let nv = arg_after(&args, "--nv").map(|s| s.parse().unwrap()).unwrap_or(3);
             obs::replay(&args[2], &args[3], nv);
         }
+        "vec-replay" => vec::replay(&args[2], &args[3]),
         other => {
             eprintln!("harness: unknown command {other}");
             std::process::exit(2);
